@@ -151,6 +151,19 @@ CLAIMS = {
               "the harness's own log, the initialisation counter compared after every step."),
         design='7/C14', technique='Coq proof (refinement of the registry model to a construction log, invariant by induction over histories) + step-wise correspondence by object identity',
         note=BASE_NOTE + " Queries are declared and evaluated at the same point of the history (a no-domain variable declared earlier fixes its set of class keys at declaration when the registry is non-empty; that laziness is outside the property's histories). Constructions whose __init__ raises and inference into a class while iterating that class's own registry are outside the modelled histories (see DESIGN.md)."),
+    'C12': dict(
+        text=("Machine-checked for EVERY rule program over one rule variable - base rule, refinements and alternatives nested to any depth "
+              "and in any order under the base, under refinements and under alternatives: C12_builders / C12_shape (the in-place edits of "
+              "rule.refinement and rule.alternative - wrap, climb to the top of the chain, re-link - assemble the intended operator tree; "
+              "proved with one-hole contexts by mutual induction over the program; the linking behaviour of the two builders is extracted "
+              "from rule.py by the translator on every run and the theorem stops compiling if it changes), C12_evaluation / C12_rdr "
+              "(evaluating ExceptIf / Alternative over that tree gives, for every item, the conclusion ripple-down rules prescribe: first "
+              "applicable branch of the level, replaced by its first applicable exception, recursively; nothing for items no branch "
+              "applies to). Tie: generated programs (depth <= 3 quick, <= 5 thorough) - the operator tree the implementation holds is "
+              "compared with the builder model and the intended tree, the (item, conclusion) rows of three consecutive evaluations, "
+              "caching off and on, with the model (sequences) and the ripple-down-rule interpreter (multisets)."),
+        design='7/C12', technique='Coq proof (builder correctness by mutual induction with one-hole contexts; evaluation = RDR by mutual induction) + translator-extracted linking flags + structural and result correspondence',
+        note=BASE_NOTE + " One rule variable with conditions on its attributes (a branch is decided per item); joins in branch conditions and next_rule are outside the model. The evaluation model (fire) abstracts ExceptIf/Alternative._evaluate__ for a bound item; it is tied by the row correspondence. Four defects were repaired in /repo (see known_findings.json)."),
 }
 
 NOT_YET = {}
